@@ -426,3 +426,57 @@ VARIANTS += [
     V('C09', 'twin: uimap without positional matching', CR, "        results = p.amap(get_grounded_importances_estimate, combinations)\n        while not results.ready():\n            time.sleep(4)\n        triplets = results.get()", "        triplets = list(p.uimap(get_grounded_importances_estimate, combinations))", expect='clean'),
     V('C09', 'twin: literal random_state', IE, "        return SGDClassifier(max_iter=100000, loss='log_loss', random_state=RANDOM_STATE)\n\n    else:", "        return SGDClassifier(max_iter=100000, loss='log_loss', random_state=7)\n\n    else:", expect='clean'),
 ]
+
+# ---------------------------------------------------------------- C10
+_ENC = """    def length_prefixed(feature):
+        # '<len>:<value>' keeps the concatenation below uniquely decodable
+        values = input_dataframe[feature].astype(str)
+        return values.str.len().astype(str) + ':' + values
+
+    def combine_features(new_combination):
+        combined_feature = length_prefixed(new_combination[0])
+        for feature in new_combination[1:]:
+            combined_feature += length_prefixed(feature)
+"""
+_ENC_ORIG = """    def combine_features(new_combination):
+        combined_feature = input_dataframe[new_combination[0]].astype(str)
+        for feature in new_combination[1:]:
+            combined_feature += input_dataframe[feature].astype(str)
+"""
+VARIANTS += [
+    V('C10', 'F6 reintroduced: raw concatenation', CR, _ENC, _ENC_ORIG),
+    V('C10', 'first constituent raw', CR, "        combined_feature = length_prefixed(new_combination[0])\n", "        combined_feature = input_dataframe[new_combination[0]].astype(str)\n"),
+    V('C10', 'plain separator without escaping', CR, "            combined_feature += length_prefixed(feature)\n", "            combined_feature += '|' + input_dataframe[feature].astype(str)\n"),
+    V('C10', 'encoder without separator', CR, "return values.str.len().astype(str) + ':' + values", "return values.str.len().astype(str) + values"),
+    V('C10', 'loop over interaction_order positions', CR, "        for feature in new_combination[1:]:\n            combined_feature += length_prefixed(feature)", "        for position in range(1, interaction_order):\n            combined_feature += length_prefixed(new_combination[position])"),
+    V('C10', 'last constituent skipped', CR, "        for feature in new_combination[1:]:\n            combined_feature += length_prefixed(feature)", "        for feature in new_combination[1:-1]:\n            combined_feature += length_prefixed(feature)"),
+    V('C10', 'F7 reintroduced: str to xxhash', CR, "xxhash.xxh64(x.encode('utf-8')).hexdigest()", "xxhash.xxh64(x).hexdigest()"),
+    V('C10', '32-bit digest', CR, "xxhash.xxh64(x.encode('utf-8')).hexdigest()", "xxhash.xxh32(x.encode('utf-8')).hexdigest()"),
+    V('C10', 'digest truncated', CR, "xxhash.xxh64(x.encode('utf-8')).hexdigest())", "xxhash.xxh64(x.encode('utf-8')).hexdigest()[:6])"),
+    V('C10', 'name joined with +', CR, "        ftr_name = join_string.join(new_combination)", "        ftr_name = '+'.join(new_combination)"),
+    V('C10', 'name sorted differently from values', CR, "        ftr_name = join_string.join(new_combination)", "        ftr_name = join_string.join(sorted(new_combination, reverse=True))"),
+    V('C10', 'label included in candidates', CR, "        x for x in input_dataframe.columns if x != args.label_column\n    ]\n    join_string", "        x for x in input_dataframe.columns\n    ]\n    join_string"),
+    V('C10', 'input columns overwritten', CR, "    tmp_df = pd.DataFrame(new_feature_hash)\n    pbar.set_description('Concatenating into final frame ..')\n    input_dataframe = pd.concat([input_dataframe, tmp_df], axis=1)", "    for name, values in new_feature_hash.items():\n        input_dataframe[name] = values\n    tmp_df = None"),
+    V('C10', 'new columns first', CR, "    pbar.set_description('Concatenating into final frame ..')\n    input_dataframe = pd.concat([input_dataframe, tmp_df], axis=1)", "    pbar.set_description('Concatenating into final frame ..')\n    input_dataframe = pd.concat([tmp_df, input_dataframe], axis=1)"),
+    V('C10', 'twin: other separator', CR, "return values.str.len().astype(str) + ':' + values", "return values.str.len().astype(str) + '|' + values", expect='clean'),
+    V('C10', 'twin: xxh3_64', CR, "xxhash.xxh64(x.encode('utf-8')).hexdigest()", "xxhash.xxh3_64(x.encode('utf-8')).hexdigest()", expect='clean'),
+]
+
+# ---------------------------------------------------------------- C11
+VARIANTS += [
+    V('C11', 'substring membership', CR, "            for enx, multivalue in enumerate(multivalue_sets):\n                if unique_value in multivalue:", "            for enx, multivalue in enumerate(multivalue_feature_vector):\n                if unique_value in multivalue:"),
+    V('C11', 'indicator 0 instead of empty', CR, "                    tmp_vec.append('')\n", "                    tmp_vec.append('0')\n"),
+    V('C11', 'rows without token skipped', CR, "                else:\n                    tmp_vec.append('')\n", ""),
+    V('C11', 'missing symbols kept', CR, "        for missing_symbol in missing_symbols:\n            if missing_symbol in unique_values:\n                unique_values.remove(missing_symbol)\n", ""),
+    V('C11', 'one-sided compares first component', CR, ") if x[1] == unique_target_feature_value else ''", ") if x[0] == unique_target_feature_value else ''"),
+    V('C11', 'one-sided filters rows', CR, ") if x[1] == unique_target_feature_value else ''\n                    for x in out_template_feature\n", ")\n                    for x in out_template_feature if x[1] == unique_target_feature_value\n"),
+    V('C11', 'two-sided uses or', CR, "                        value_tuple[0] == mask_type[0]\n                        and value_tuple[1] == mask_type[1]", "                        value_tuple[0] == mask_type[0]\n                        or value_tuple[1] == mask_type[1]"),
+    V('C11', 'control target shuffled', RTF2, "new_columns['CONTROL-target'] = dataframe[label_column]", "new_columns['CONTROL-target'] = dataframe[label_column].sample(frac=1.0).values"),
+    V('C11', 'get_vals writes back into the frame', RTF2, "        cvals = [str(x).replace('\"', '') for x in cvals]\n", "        cvals = [str(x).replace('\"', '') for x in cvals]\n        tmp_df[col_name] = cvals\n"),
+    V('C11', 'subfeatures sort the frame', CR, "    tmp_df = pd.DataFrame(new_feature_hash)\n    input_dataframe = pd.concat([input_dataframe, tmp_df], axis=1)\n\n    del tmp_df\n    return input_dataframe", "    tmp_df = pd.DataFrame(new_feature_hash)\n    input_dataframe = pd.concat([input_dataframe, tmp_df], axis=1).sort_values(by=feature_first)\n\n    del tmp_df\n    return input_dataframe"),
+    V('C11', 'noise step drops constant columns', RTF2, "            dataframe = pd.concat([dataframe, tmp_df], axis=1)\n            del tmp_df\n\n        return dataframe", "            dataframe = pd.concat([dataframe, tmp_df], axis=1)\n            dataframe = dataframe.loc[:, dataframe.nunique() > 1]\n            del tmp_df\n\n        return dataframe"),
+    V('C11', 'multiex writes indicator into input', CR, "            new_feature_hash[f'MULTIEX-{multivalue_feature}-{unique_value}'] = tmp_vec\n", "            input_dataframe[f'MULTIEX-{multivalue_feature}-{unique_value}'] = tmp_vec\n"),
+    V('C11', 'step result not threaded', CR, "        input_dataframe = compute_subfeatures(input_dataframe, logger, args, pbar)", "        compute_subfeatures(input_dataframe, logger, args, pbar)"),
+    V('C11', 'twin: discard instead of remove', CR, "            if missing_symbol in unique_values:\n                unique_values.remove(missing_symbol)", "            unique_values.discard(missing_symbol)", expect='clean'),
+    V('C11', 'twin: literal indicators', CR, "                        new_feature.append(str(1))\n                    else:\n                        new_feature.append(str(0))", "                        new_feature.append('1')\n                    else:\n                        new_feature.append('0')", expect='clean'),
+]
